@@ -6,19 +6,31 @@ history and property predicates live in spec/rt/RtProps.tla.  Binding (impl -> s
 driver harness/rt (`vrt`) executes seeded scenarios enumerated from the property's quantifier through
 the public API of actix-rt and records call intervals / task starts / joins / run results under one
 mutex; spec/rt/ActixRtTrace.tla applies the same history updates as the model to every record and TLC
-evaluates the same C09_* / C10_* predicates on every prefix (predicate mode)."""
+evaluates the same C09_* / C10_* predicates on every prefix (predicate mode).
+
+Scenario flavours (gen_scenarios): the enumerated shape space (c09 / c10) plus, on top, c09-pre / c09-burst (a backlog
+of Register/Deregister messages in front of the system controller), c10-self (commands that send from the arbiter's
+own thread through Arbiter::current()) and c10-rounds (one OS thread hosts 2-3 Systems one after another; each System
+is a run of its own in the trace)."""
+import concurrent.futures
 import itertools
 import json
 import os
 import random
 import sys
+import threading
 
 import vlib
+
+_COV_LOCK = threading.Lock()
 
 MOD = "rt/ActixRt.tla"
 TMOD = "rt/ActixRtTrace.tla"
 SHAPES = ["early", "dropped", "running", "busy"]
 FROMS = ["sys", "arb", "foreign"]
+I32_MIN = -2147483648
+# exit codes by class: the property speaks of "non-zero", and i32 codes may be negative
+CODES = {"zero": [0], "pos": [7, 9, 1, 2147483647], "neg": [-1, -7, I32_MIN]}
 
 NEGS_C09 = {"NEG_C09_SecondStopOverwritesCode.cfg": ["C09_FirstCodeWins"],
             "NEG_C09_ExitSkipsLastArbiter.cfg": ["C09_AllRegisteredStop"],
@@ -26,6 +38,8 @@ NEGS_C09 = {"NEG_C09_SecondStopOverwritesCode.cfg": ["C09_FirstCodeWins"],
             "NEG_C09_DeregWrongId.cfg": ["C09_AllRegisteredStop", "C09_EarlyStoppedDeregistered"],
             "NEG_C09_DeregWrongId_early.cfg": ["C09_EarlyStoppedDeregistered"],
             "NEG_C09_RunIgnoresNonZero.cfg": ["C09_RunErrOnNonZero"],
+            "NEG_C09_RunOkOnNegative.cfg": ["C09_RunErrOnNonZero"],
+            "NEG_C09_live_CtrlBatchLosesWake.cfg": ["temporal"],
             "NEG_C09_RegisterAfterReady.cfg": ["C09_AllRegisteredStop"],
             "NEG_C09_live_ExitSkipsLastArbiter.cfg": ["temporal"]}
 
@@ -34,22 +48,42 @@ NEGS_C09 = {"NEG_C09_SecondStopOverwritesCode.cfg": ["C09_FirstCodeWins"],
 # scenarios (the quantifier of C09 / C10, enumerated; command sequences and timing seeded)
 # --------------------------------------------------------------------------------------------
 def shape_space():
-    """0..3 arbiters each {early, dropped, running, busy} x stop from {sys, arb, foreign} x first code {0, 7}
-    x {one, two} stop calls."""
+    """0..3 arbiters each {early, dropped, running, busy} x stop from {sys, arb, foreign} x first code class
+    {zero, positive, negative} x {one, two} stop calls."""
     out = []
     for n in range(4):
         for shapes in itertools.product(SHAPES, repeat=n):
             for frm in FROMS:
-                for code in (0, 7):
+                for code in ("zero", "pos", "neg"):
                     for nstops in (1, 2):
                         out.append((shapes, frm, code, nstops))
     return out
 
 
-def gen_cmd(rng, narb, allow_stop=True, sys_target=True):
+def pick_code(rng, cls):
+    c = CODES[cls]
+    # mostly the first two of a class, the extremes now and then
+    return c[0] if len(c) == 1 else (rng.choice(c[:2]) if rng.random() < 0.7 else rng.choice(c))
+
+
+def gen_self_cmd(rng, a, op):
+    """a command whose body sends from the arbiter's own thread through Arbiter::current()"""
+    c = {"arb": a, "op": op, "carrier": rng.choice(["spawn", "spawn_fn"]), "kind": rng.choice(["spawn", "spawn_fn"])}
+    if op == "self_spawn":
+        c["nx"] = rng.randint(1, 3)
+    return c
+
+
+def gen_cmd(rng, narb, allow_stop=True, sys_target=True, self_send=False):
     lo = 0 if sys_target else 1
     a = rng.randint(lo, narb) if narb >= lo else 0
     x = rng.random()
+    if self_send:
+        y = rng.random()
+        if y < 0.07:
+            return gen_self_cmd(rng, a, "self_spawn")
+        if y < 0.11 and allow_stop and (a != 0 or rng.random() < 0.2):
+            return gen_self_cmd(rng, a, "self_stop_then_spawn")
     if allow_stop and x < 0.14 and (a != 0 or rng.random() < 0.2):
         return {"arb": a, "op": "stop"}
     if x < 0.57:
@@ -62,14 +96,15 @@ def gen_cmd(rng, narb, allow_stop=True, sys_target=True):
 
 
 def gen_scenario(rng, sid, combo, flavour):
-    shapes, frm, code, nstops = combo
+    shapes, frm, code_cls, nstops = combo
+    code = pick_code(rng, code_cls)
     n = len(shapes)
     arbs = []
     for i, sh in enumerate(shapes):
         ncmd = rng.randint(0, 2) if flavour == "c09" else rng.randint(0, 4)
         owner = []
         for _ in range(ncmd):
-            c = gen_cmd(rng, n, allow_stop=(flavour == "c10"))
+            c = gen_cmd(rng, n, allow_stop=(flavour == "c10"), self_send=(flavour == "c10"))
             c["arb"] = i + 1
             owner.append(c)
         if sh == "busy":
@@ -79,21 +114,97 @@ def gen_scenario(rng, sid, combo, flavour):
     senders = []
     for _ in range(nsend):
         k = rng.randint(1, 3) if flavour == "c09" else rng.randint(2, 6)
-        senders.append([gen_cmd(rng, n, allow_stop=(flavour == "c10" or rng.random() < 0.3)) for _ in range(k)])
+        senders.append([gen_cmd(rng, n, allow_stop=(flavour == "c10" or rng.random() < 0.3), self_send=(flavour == "c10"))
+                        for _ in range(k)])
     live = [i + 1 for i, sh in enumerate(shapes) if sh in ("running", "busy", "dropped")] or list(range(1, n + 1)) or [0]
     stops = [{"from": frm, "arb": rng.choice(live), "code": code, "delay": rng.randint(0, 3)}]
     if nstops == 2:
-        other = [c for c in (0, 7, 9) if c != code]
+        other = [c for c in (0, 7, 9, -1, -7, I32_MIN) if c != code]
         stops.append({"from": rng.choice(FROMS), "arb": rng.choice(live), "code": rng.choice(other),
                       "delay": rng.randint(0, 2)})
     # an extra arbiter created by a task on the system thread while the system runs: racing the stop (late), or
     # followed at once by a stop issued by its creator (fresh arbiter: registered before new() returned?)
     late = rng.random() < 0.2
-    late_stop = rng.choice([0, 7]) if late and rng.random() < 0.5 else None
+    late_stop = rng.choice([0, 7, -7]) if late and rng.random() < 0.5 else None
     return {"id": sid, "seed": rng.getrandbits(48), "api": rng.choice(["run", "run_with_code"]),
             "arbs": arbs, "senders": senders, "stops": stops, "concurrent": rng.random() < 0.5,
             "late": late, "late_stop": late_stop, "blockon": [rng.randint(-1000, 1000) for _ in range(rng.randint(0, 3))],
             "flavour": flavour}
+
+
+def gen_fates(rng, n):
+    """mostly stopped-and-joined at once (Register + Deregister each), some kept running, some dropped"""
+    return [rng.choice(["stop"] * 7 + ["keep"] * 2 + ["drop"]) for _ in range(n)]
+
+
+def gen_backlog_scenario(rng, sid, k, which):
+    """C09 with a backlog in front of the system controller.
+    which = "pre":   10-30 arbiters are created, and mostly stopped / dropped, by the system thread BEFORE run() is
+                     entered (their Register/Deregister messages are all buffered at the first poll of the controller);
+    which = "burst": the system runs; a foreign thread blocks the system thread inside a task, creates and stops
+                     8-16 arbiters meanwhile, then releases it.
+    The stop then comes from each kind of thread in turn (task on the system thread, task on an arbiter, foreign
+    thread; for "pre" also the system thread itself before run())."""
+    shapes = tuple(rng.choice(["running", "running", "busy", "dropped", "early"]) for _ in range(rng.randint(0, 2)))
+    frm = FROMS[k % 3]
+    sc = gen_scenario(rng, sid, (shapes, frm, rng.choice(["zero", "pos", "neg"]), rng.choice([1, 1, 2])), "c09")
+    sc["blockon"] = sc["blockon"] if which == "burst" else []
+    # no command stops the system arbiter here: the blocking task / the stop task must be able to run on it
+    for script in sc["senders"] + [a["owner"] for a in sc["arbs"]]:
+        script[:] = [c for c in script if not (c["op"] == "stop" and c["arb"] == 0)]
+    if which == "pre":
+        fates = gen_fates(rng, rng.randint(10, 30))
+        sc["pre"] = {"fates": fates, "interleave": rng.random() < 0.6}
+        if k % 4 == 3:
+            # the stop is issued by the system thread itself, before run() is entered
+            sc["pre"]["stop_before_run"] = sc["stops"][0]["code"]
+            sc["stops"] = sc["stops"][1:]
+    else:
+        sc["burst"] = {"fates": gen_fates(rng, rng.randint(8, 16)), "interleave": rng.random() < 0.7}
+        # no arbiter-creating task with a stop of its own: the burst must happen before the first stop
+        sc["late"], sc["late_stop"] = False, None
+    sc["flavour"] = "c09-" + which
+    return sc
+
+
+def gen_self_scenario(rng, sid, k):
+    """C10: commands that send from the arbiter's own thread, guaranteed present (on a worker arbiter and, every
+    other scenario, on the system arbiter), next to ordinary traffic from other threads."""
+    shapes = tuple(rng.choice(["running", "running", "busy", "early"]) for _ in range(rng.randint(1, 2)))
+    sc = gen_scenario(rng, sid, (shapes, rng.choice(FROMS), "zero", 1), "c10")
+    n = len(shapes)
+    a = rng.randint(1, n)
+    b = 0 if k % 2 == 0 else rng.randint(1, n)
+    first = [gen_self_cmd(rng, a, "self_spawn"), gen_cmd(rng, n, allow_stop=False), gen_self_cmd(rng, b, "self_spawn")]
+    second = [gen_cmd(rng, n, allow_stop=False) for _ in range(rng.randint(0, 2))] + [gen_self_cmd(rng, a, "self_stop_then_spawn")]
+    sc["senders"] = [first, second] + sc["senders"][:1]
+    sc["stops"][0]["delay"] = rng.randint(2, 4)
+    sc["flavour"] = "c10-self"
+    return sc
+
+
+def gen_rounds_scenario(rng, sid):
+    """C10: ONE OS thread hosts 2-3 Systems one after another (thread-local state of the earlier ones is still
+    around).  In every System a marker command per arbiter (system arbiter and the workers created under it) records
+    what Arbiter::current() / System::current() are inside it, before anything else happens."""
+    rounds = []
+    for r in range(rng.choice([2, 2, 3])):
+        shapes = tuple(rng.choice(["running", "running", "busy", "early", "dropped"]) for _ in range(rng.randint(0, 2)))
+        sc = gen_scenario(rng, sid, (shapes, rng.choice(FROMS), rng.choice(["zero", "pos", "neg"]), 1), "c10")
+        for script in sc["senders"] + [a["owner"] for a in sc["arbs"]]:
+            for c in script:
+                if c["op"] != "stop":
+                    c["echo"] = True
+        sc.update({"probe": True, "late": False, "late_stop": None, "flavour": "c10-rounds"})
+        rounds.append(sc)
+    return {"id": sid, "seed": rng.getrandbits(48), "rounds": rounds, "flavour": "c10-rounds"}
+
+
+def extras(count, flavour):
+    """how many scenarios of the special flavours are added on top of the `count` enumerated ones"""
+    if flavour == "c09":
+        return {"pre": max(12, count * 18 // 100), "burst": max(9, count * 12 // 100)}
+    return {"self": max(12, count * 12 // 100), "rounds": max(8, count * 10 // 100)}
 
 
 def gen_scenarios(rng, count, flavour):
@@ -106,6 +217,24 @@ def gen_scenarios(rng, count, flavour):
     out = []
     for i in range(count):
         out.append(gen_scenario(rng, i, space[i % len(space)], flavour))
+    ex = extras(count, flavour)
+    special = []
+    if flavour == "c09":
+        special += [("pre", k) for k in range(ex["pre"])] + [("burst", k) for k in range(ex["burst"])]
+    else:
+        special += [("self", k) for k in range(ex["self"])] + [("rounds", k) for k in range(ex["rounds"])]
+    for which, k in special:
+        sid = len(out)
+        if which in ("pre", "burst"):
+            sc = gen_backlog_scenario(rng, sid, k, which)
+        elif which == "self":
+            sc = gen_self_scenario(rng, sid, k)
+        else:
+            sc = gen_rounds_scenario(rng, sid)
+        # spread them over the whole run list (the driver stops after a few runs with watchdog expiries)
+        out.insert(rng.randint(0, len(out)), sc)
+    for i, sc in enumerate(out):
+        sc["id"] = i
     return out
 
 
@@ -149,8 +278,9 @@ def validate(ctx, tcfg, runs, tag, chunk=1000):
             vlib.write_ndjson(path, flat)
             v = vlib.validate_trace(TMOD, tcfg, path, timeout=1800, xmx="4g",
                                     tag="%s-%s-%d-%d-%d" % (ctx.prop, tag, os.getpid(), c0, rounds))
-            ctx.cov["trace_tlc_states"] = ctx.cov.get("trace_tlc_states", 0) + v.tlc.distinct
-            ctx.cov["trace_tlc_wall_s"] = round(ctx.cov.get("trace_tlc_wall_s", 0) + v.tlc.wall, 1)
+            with _COV_LOCK:
+                ctx.cov["trace_tlc_states"] = ctx.cov.get("trace_tlc_states", 0) + v.tlc.distinct
+                ctx.cov["trace_tlc_wall_s"] = round(ctx.cov.get("trace_tlc_wall_s", 0) + v.tlc.wall, 1)
             nts = nt_summaries(v.tlc.stdout)          # one per completed run, in order
             summaries += [(c0 + remaining[k], nts[k]) for k in range(min(len(nts), len(remaining)))]
             if v.accepted:
@@ -198,8 +328,11 @@ def model_checks(ctx, cfgs, negs, live=None, need_actions=()):
         vlib.require_ok(res, live)
         ctx.add_tlc(live, res, "liveness under weak fairness (no state constraint): every issued stop leads to "
                                "run returning and to the join of every arbiter created before it returning")
-    for ncfg, exp in negs.items():
-        ctx.expect_neg(MOD, ncfg, exp, workers=8)
+    # the NEG configs are small and independent: a few TLC processes side by side
+    with concurrent.futures.ThreadPoolExecutor(max_workers=4) as pool:
+        futs = [pool.submit(ctx.expect_neg, MOD, ncfg, exp, workers=3) for ncfg, exp in negs.items()]
+        for f in futs:
+            f.result()
 
 
 # --------------------------------------------------------------------------------------------
@@ -234,6 +367,12 @@ TAMPERED = {
         ("C09_FirstCodeWins", _t(*_sys(7), *_sys(9), {"ev": "RunReturned", "api": "run_with_code", "ok": True, "code": 9})),
         ("C09_FirstCodeWins", _t(*_sys(7), {"ev": "RunTimeout"})),
         ("C09_RunErrOnNonZero", _t(*_sys(7), {"ev": "RunReturned", "api": "run", "ok": True, "code": 0})),
+        ("C09_RunErrOnNonZero", _t(*_sys(-1), {"ev": "RunReturned", "api": "run", "ok": True, "code": 0, "coded": True})),
+        ("C09_FirstCodeWins", _t(*_sys(I32_MIN), {"ev": "RunReturned", "api": "run", "ok": False, "code": -1, "coded": True})),
+        ("C09_AllRegisteredStop", _t(*[{"ev": "ArbNewEnd", "arb": 100 + i} for i in range(1, 25)], *_sys(-7),
+                                     {"ev": "RunReturned", "api": "run_with_code", "ok": True, "code": -7, "coded": True},
+                                     *[{"ev": "JoinReturned", "arb": 100 + i} for i in range(1, 24)],
+                                     {"ev": "JoinTimeout", "arb": 124, "phase": "sys"})),
         ("C09_AllRegisteredStop", _t(*_sys(0), {"ev": "RunReturned", "api": "run", "ok": True, "code": 0},
                                      {"ev": "JoinReturned", "arb": 1}, {"ev": "JoinTimeout", "arb": 2, "phase": "sys"})),
         ("C09_EarlyStoppedDeregistered", _t(*_STOP1, {"ev": "JoinReturned", "arb": 1}, *_send(1, True), _start(1))),
@@ -245,6 +384,13 @@ TAMPERED = {
         ("C10_OnOwnThread", _t(*_send(1), _start(1, tid=2))),
         ("C10_OnOwnThread", _t(*_send(1), *_send(2, arb=2), _start(1, tid=5), _start(2, tid=5, arb=2))),
         ("C10_NothingAfterStop", _t(*_STOP1, *_send(1), _start(1))),
+        # the same two clauses with the calls made on the arbiter's own thread (tid 5) through Arbiter::current()
+        ("C10_NothingAfterStop", _t(*_send(1), _start(1), *[dict(r, tid=5, via="current") for r in _STOP1 + _send(2)],
+                                    _start(2))),
+        ("C10_StartOrderRespectsSendOrder", _t(*_send(1), _start(1), *_send(2), *[dict(r, tid=5, via="current") for r in _send(3)],
+                                               _start(3), _start(2))),
+        # Arbiter::current() inside a running task refuses a marker although nothing was stopped
+        ("C10_OnOwnThread", _t(*_send(1), _start(1), {"ev": "EchoSend", "id": 1, "arb": 1, "ok": False, "tid": 5})),
         ("C10_SpawnFalseWhenGone", _t(*_STOP1, {"ev": "JoinReturned", "arb": 1}, *_send(1, True))),
         ("C10_JoinAfterLoopEnd", _t(*_send(1), *_STOP1, {"ev": "JoinReturned", "arb": 1}, _start(1))),
         ("C10_BlockOnOutput", _t({"ev": "BlockOn", "what": "x", "expected": 1, "got": 2})),
@@ -254,8 +400,10 @@ TAMPERED = {
 
 def binding_vacuity_guard(ctx, tcfg):
     cases = TAMPERED[ctx.prop]
-    for k, (pred, run) in enumerate(cases):
-        acc, rej, _ = validate(ctx, tcfg, [run], "guard%d" % k)
+    with concurrent.futures.ThreadPoolExecutor(max_workers=4) as pool:
+        futs = [pool.submit(validate, ctx, tcfg, [run], "guard%d" % k) for k, (pred, run) in enumerate(cases)]
+        results = [f.result() for f in futs]
+    for k, ((pred, run), (acc, rej, _)) in enumerate(zip(cases, results)):
         got = rej[0][2] if rej else None
         if got != pred:
             raise vlib.ToolError("binding vacuity guard: hand-written history %d should violate %s, TLC says %s" % (k, pred, got))
@@ -286,11 +434,22 @@ def flow(ctx, *, flavour, tcfg, nt_rule, nontrivial):
     summaries = [s for _, s in summaries]
     ctx.cov["rule"] = nt_rule
     ctx.cov["antecedent_counts"] = {k: sum(1 for s in summaries if s.get(k) is True) for k in
-                                    ("order", "started", "afterStop", "afterGone", "mustStop", "twoStops", "early")}
+                                    ("order", "started", "afterStop", "afterGone", "mustStop", "twoStops", "early",
+                                     "selfSend", "echo", "negCode")}
+    ctx.cov["max_arbiters_in_one_run"] = max([s.get("ncreated", 0) for s in summaries] or [0])
+    ctx.cov["runs_with_10_or_more_arbiters"] = sum(1 for s in summaries if s.get("ncreated", 0) >= 10)
+    executed = {r[0]["run"] for r in runs}
+    fl = {}
+    for i in executed:
+        fl[scen[i]["flavour"]] = fl.get(scen[i]["flavour"], 0) + 1
+    ctx.cov["scenarios_executed_by_flavour"] = fl
+    ctx.cov["systems_hosted_after_another_on_one_thread"] = sum(1 for r in runs if r[0].get("round", 0) > 0)
     ctx.cov["drift"] = {"send_false_before_any_stop": sum(1 for s in summaries if s.get("driftFalse")),
                         "explicit_stop_join_timeout": sum(1 for s in summaries if s.get("driftEarly"))}
-    ctx.cov["scenario_shapes_covered"] = len({(tuple(a["shape"] for a in s["arbs"]), s["stops"][0]["from"],
-                                               s["stops"][0]["code"], len(s["stops"])) for s in scen[:len(runs)]})
+    def shape_key(s):
+        st = s["stops"] or [{"from": "before_run", "code": s.get("pre", {}).get("stop_before_run")}]
+        return (tuple(a["shape"] for a in s["arbs"]), st[0]["from"], st[0]["code"], len(s["stops"]))
+    ctx.cov["scenario_shapes_covered"] = len({shape_key(r) for i in executed for r in scen[i].get("rounds", [scen[i]])})
     ctx.cov["samples"].append({"scenario": scen[0], "observed_trace": runs[0][:60]})
     for (ri, pos, pred) in rejects:
         sid = runs[ri][0].get("run", ri)
@@ -306,7 +465,11 @@ def flow(ctx, *, flavour, tcfg, nt_rule, nontrivial):
         "sequence numbers are taken under one mutex: 'x ended before y started' is real-time precedence; "
         "nothing else about the order of concurrent calls is used",
         "watchdog 10 s: a join/run that has not returned by then is recorded as a timeout",
-        "task identity of Arbiter::current() is observed through a marker task sent via that handle",
+        "task identity of Arbiter::current() is observed through a marker task sent via that handle: it must be accepted "
+        "while no stop of any kind was issued (the loop running the observing task is alive) and run on the same thread",
+        "calls made on an arbiter's own thread through Arbiter::current() are recorded as ordinary intervals under the "
+        "same mutex; the arbiter number logged for them is the one of the task that made the call",
+        "several Systems hosted by one OS thread are judged one by one (a reset..End segment each)",
         "model: calls shrunk to their linearization point in the large configs (predicates are antitone in the "
         "interval width); MC_*_calls.cfg keeps the three-phase calls on small constants"]
     return scen, runs
@@ -336,7 +499,10 @@ def run(ctx):
     model_checks(ctx, cfgs, NEGS_C09, live="LIVE_C09.cfg")
     ctx.cov["exhaustive"] = True
     ctx.cov["constants"] = {"model": "see tlc_runs", "driver": "0..3 arbiters x {early,dropped,running,busy} x stop from "
-                            "{sys,arb,foreign} x codes {0,7,9} x {1,2} stops, run()/run_with_code()"}
+                            "{sys,arb,foreign} x codes {0 | 7,9,1,i32::MAX | -1,-7,i32::MIN} x {1,2} stops, "
+                            "run()/run_with_code(); plus backlog scenarios: 10-30 arbiters created/stopped/dropped by the "
+                            "system thread before run() (stop also from the system thread before run()), and bursts of "
+                            "8-16 arbiters created/stopped by a foreign thread while the system thread is blocked in a task"}
     flow(ctx, flavour="c09", tcfg="Trace_C09.cfg",
          nt_rule="a run is non-trivial when a System stop was issued while at least one worker arbiter created before "
                  "it existed (mustStop non-empty), or two stop calls were issued, or an arbiter had stopped early; "
